@@ -65,6 +65,8 @@ def _case(draw):
             # a composite in the layer whose nested composite base is not in the layer
             sub = sorted((set(sub) | {"nest"}) - {"twice"})
         fam["sparse"] = {"k": 4, "loc": {"Weight": draw(st.sampled_from([300, 600, 850]))}, "names": sorted(sub)}
+    if fam.get("sparse") and draw(st.sampled_from([True, False, False])):
+        fam["sparse"]["own_ufo"] = True
     opts = {}
     if entry.startswith("TTF") and draw(st.booleans()):
         opts["flattenComponents"] = True
@@ -75,6 +77,16 @@ def _case(draw):
         opts["skipExportGlyphs"] = [draw(st.sampled_from(names))]
     if draw(st.sampled_from([True, False, False, False])):
         spec.setdefault("lib", {})["com.github.googlei18n.ufo2ft.filters"] = [draw(st.sampled_from([{"name": "decomposeTransformedComponents", "pre": True}, {"name": "propagateAnchors", "pre": True}, {"name": "flattenComponents", "pre": True}]))]
+    simple = [g["name"] for g in spec["glyphs"] if g.get("contours") and not g.get("components") and g["name"] != ".notdef"]
+    if entry != "TTFs" and simple and draw(st.sampled_from([True, False, False, False])):
+        # one base interpolated at a sparse location twice: first for a mixed glyph (decomposed before curve conversion), then for a transformed
+        # composite decomposed by a post-filter - with the glyph sets rewritten by the default filters in between
+        b = simple[0]
+        spec["glyphs"].append({"name": "mixb", "width": 500, "unicodes": [], "contours": [[[0, 0, "line"], [30, 0, "line"], [10, 40, "line"]]], "components": [{"base": b, "t": [1, 0, 0, 1, 5, 0]}]})
+        spec["glyphs"].append({"name": "trb", "width": 500, "unicodes": [], "components": [{"base": b, "t": [0.5, 0, 0, 0.5, 0, 0]}]})
+        fam["sparse"] = {"k": 4, "loc": {"Weight": draw(st.sampled_from([300, 600, 850]))}, "names": sorted((set((fam.get("sparse") or {}).get("names", [])) | {"mixb", "trb"}) - {b})}
+        spec.setdefault("lib", {})["com.github.googlei18n.ufo2ft.filters"] = [{"name": "decomposeTransformedComponents"}]
+        opts.pop("skipExportGlyphs", None)
     return {"fam": fam, "module": draw(st.sampled_from(["ufoLib2", "defcon"])), "entry": entry, "opts": opts}
 
 
@@ -112,11 +124,41 @@ def sig_cff(font, name, closing_explicit=False):
     return ("O", tuple(out)) if out else ("E",)
 
 
+def overflow_on_missing_base(gi, name, layer, seen=None):
+    """input class of KF-C09-1: `name` reaches, through component references, a component whose 2x2 has an entry beyond the F2Dot14 range (fontTools' pen
+    then decomposes the composite while the glyph is drawn, per master) and whose base is not in the sparse layer (an empty placeholder there)"""
+    seen = seen if seen is not None else set()
+    if name in seen or name not in gi:
+        return False
+    seen.add(name)
+    for c in gi[name].get("components", []):
+        if any(abs(v) > 2 for v in c["t"][:4]) and not _closed_in_layer(gi, c["base"], layer):
+            return True
+        if overflow_on_missing_base(gi, c["base"], layer, seen):
+            return True
+    return False
+
+
+def _closed_in_layer(gi, name, layer, seen=None):
+    seen = seen if seen is not None else set()
+    if name in seen:
+        return True
+    seen.add(name)
+    if name not in layer or name not in gi:
+        return False
+    return all(_closed_in_layer(gi, c["base"], layer, seen) for c in gi[name].get("components", []))
+
+
 def reload(t):
     from fontTools.ttLib import TTFont
 
     b = io.BytesIO()
-    t.save(b)
+    try:
+        t.save(b)
+    except Exception:
+        # interpolatable masters are in-memory intermediates: a sparse master compiled with all tables carries placeholder glyphs of advance 0xFFFF,
+        # which OS/2.xAvgCharWidth cannot store. The glyph data is then read from the in-memory font.
+        return t
     return TTFont(io.BytesIO(b.getvalue()))
 
 
@@ -149,6 +191,7 @@ def run_case(case, ctx):
     ttf = entry.startswith("TTF")
     sig = sig_tt if ttf else sig_cff
     nfull = len(fam["masters"])
+    gi_base = R.glyph_index(fam["base"])
     sparse = fam.get("sparse") and entry != "TTFs"
     allnames = set().union(*[set(f.getGlyphOrder()) for f in out])
     for n in sorted(allnames):
@@ -157,15 +200,22 @@ def run_case(case, ctx):
             if n in f.getGlyphOrder():
                 sigs[i] = sig(f, n)
         vals = set(sigs.values())
+        in_layer = bool(sparse) and n in fam["sparse"]["names"]
         if sparse:
-            # empty placeholder bases in the sparse master are allowed
-            vals = {s for i, s in sigs.items() if not (i >= nfull and s == ("E",))}
+            # empty placeholder bases in the sparse master are allowed - for glyphs that are not in its layer
+            vals = {s for i, s in sigs.items() if not (i >= nfull and s == ("E",) and not in_layer)}
         if len(vals) > 1 and not ttf:
             alt = {i: sig_cff(f, n, closing_explicit=True) for i, f in enumerate(out) if n in f.getGlyphOrder()}
-            avals = {s_ for i, s_ in alt.items() if not (sparse and i >= nfull and s_ == ("E",))}
+            avals = {s_ for i, s_ in alt.items() if not (sparse and i >= nfull and s_ == ("E",) and not in_layer)}
             if len(avals) <= 1:
                 vals = avals
                 ctx.count("cff-glyphs-compatible-modulo-explicit-closing-line")
+        if len(vals) > 1 and ttf and in_layer and overflow_on_missing_base(gi_base, n, set(fam["sparse"]["names"])) and not case.get("no_exclusions"):
+            full = {s_ for i, s_ in sigs.items() if i < nfull}
+            if len(full) == 1:
+                # KF-C09-1: only the sparse master deviates, and the glyph reaches a base outside the layer through a transform beyond F2Dot14
+                ctx.count("glyphs-in-known-finding-class(KF-C09-1)")
+                continue
         if len(vals) > 1:
             raise Violation("masters are not point-compatible for a glyph", glyph=n, signatures={str(i): repr(s)[:300] for i, s in sigs.items()}, tweaks=fam["tweaks"], options=case["opts"])
         ctx.count("glyph-signatures-compared")
@@ -193,6 +243,8 @@ def run_case(case, ctx):
         if missing:
             raise Violation("sparse master lacks glyphs of its layer", missing=sorted(missing))
         ctx.label("sparse-master")
+        if fam["sparse"].get("own_ufo"):
+            ctx.label("sparse-master-is-its-own-ufo")
     # classification
     cubic = any(p[2] == "curve" for g in fam["base"]["glyphs"] for c in g.get("contours", []) for p in c)
     if cubic:
@@ -206,6 +258,8 @@ def run_case(case, ctx):
         ctx.label("zero-length-line-in-one-master")
     ctx.label("ttf" if ttf else "otf")
     ctx.label("entry=" + entry)
+    if any(g["name"] == "trb" for g in fam["base"]["glyphs"]):
+        ctx.label("base-interpolated-twice-at-sparse-location")
     # would single-master conversion have chosen different spline lengths?
     differs = False
     if ttf and cubic:
